@@ -40,7 +40,7 @@ func (e TypeConversionMethods) ValueToTimestamp(value ldvalue.Value) (time.Time,
 		return parseRFC3339TimeUTC(value.StringValue())
 	case ldvalue.NumberType:
 		unixMillis := int64(value.Float64Value())
-		return time.Unix(0, unixMillis*int64(time.Millisecond)).UTC(), true
+		return time.UnixMilli(unixMillis).UTC(), true
 	}
 	return time.Time{}, false
 }
